@@ -371,7 +371,12 @@ def step (s : St) : Op → Except Err St
     match s.bkt b1, s.bkt b2 with
     | some k1, some k2 =>
       if k1.res ≠ k2.res then .error .wrongResource
+      -- buckets of one resource are of one kind (the bucket blueprint is fixed by the resource manager)
+      else if k1.nf ≠ k2.nf then .error .wrongKind
       else if !inRange (k1.amt + k2.amt) then .error .overflow
+      -- `IndexSet::extend` would silently drop an id held by both buckets; ids are unique (C43), the
+      -- model makes the impossible case an explicit outcome instead of losing an id
+      else if k1.nf && (insertIds k1.ids k2.ids).length ≠ k1.ids.length + k2.ids.length then .error .duplicateId
       else if k1.nf then
         .ok { dropBucket s b2 with bkt := upd (dropBucket s b2).bkt b1 (some { k1 with ids := insertIds k1.ids k2.ids }) }
       else
